@@ -18,7 +18,7 @@ Ltac wf_prog := repeat constructor; cbn [hop_wf rop_wf]; repeat split; try refle
 
 (* fixed in /repo 6f630cd: SetBodyStream(r, -1) then Header.Set("Content-Length", "5") now drops the chunked marker *)
 Definition prog_manual_cl : list hop :=
-  [HSetBodyStream (-1) (mkStream SKReader [s2b "hello"] false); HHdr (ROSet (s2b "Content-Length") (s2b "5"))].
+  [HSetBodyStream (-1) (mkStream SKReader [s2b "hello"] false false); HHdr (ROSet (s2b "Content-Length") (s2b "5"))].
 Lemma fixed_manual_cl :
   Forall hop_wf prog_manual_cl /\ guard MGet (finished cfg0 q_get prog_manual_cl) /\
   exists wire, serve_one ok d0 cfg0 q_get prog_manual_cl = (wire, WrOk, false) /\
@@ -46,7 +46,7 @@ Qed.
 
 (* SetStatusCode(304); SetBodyStream(r, 0); SetStatusCode(200): no Content-Length, no Transfer-Encoding, kept alive *)
 Definition prog_length_lost : list hop :=
-  [HHdr (ROSetStatusCode 304); HSetBodyStream 0 (mkStream SKReader [] false); HHdr (ROSetStatusCode 200)].
+  [HHdr (ROSetStatusCode 304); HSetBodyStream 0 (mkStream SKReader [] false false); HHdr (ROSetStatusCode 200)].
 Lemma refuted_length_lost :
   Forall hop_wf prog_length_lost /\ w_status (want_of prog_length_lost) = 200%Z /\
   exists wire, serve_one ok d0 cfg0 q_get prog_length_lost = (wire, WrOk, false) /\
@@ -66,7 +66,7 @@ Proof. split; [reflexivity|]. eexists. split; [vm_compute; reflexivity|]. vm_com
 
 (* SetBodyStream(bytes.NewReader(20 bytes), 5): the WriteTo copy is not limited *)
 Definition twenty : bytes := s2b "01234567890123456789".
-Definition prog_writerto_oversize : list hop := [HSetBodyStream 5 (mkStream SKWriterTo [twenty] false)].
+Definition prog_writerto_oversize : list hop := [HSetBodyStream 5 (mkStream SKWriterTo [twenty] false false)].
 Lemma refuted_writerto_oversize :
   exists wire, serve_one ok d0 cfg0 q_get prog_writerto_oversize = (wire, WrErr, true) /\
     option_map (fun x => match x with (st, fs, after) => (st, values_of "content-length" fs, length after) end) (head_parse wire)
